@@ -976,7 +976,14 @@ private:
           static_cast<std::mt19937::result_type>(
             std::hash<std::thread::id>{}(std::this_thread::get_id())));
         std::uniform_int_distribution<int> jitterDist(0, 99);
-        int backoffMs = (1 << attempt) * 100 + jitterDist(jitterRng);
+        // Cap the EXPONENT only (attempt itself keeps counting towards `retries`):
+        // `(1 << attempt) * 100` overflows int from attempt 25 — the negative
+        // duration makes sleep_for return at once, i.e. a retry with no backoff —
+        // and the shift is undefined behaviour from attempt 31. 2^10 * 100 ms is
+        // about 102 s; budgets up to 11 back off exactly as before.
+        static constexpr int kMaxBackoffShift = 10;
+        const int backoffShift = std::min(attempt, kMaxBackoffShift);
+        int backoffMs = (1 << backoffShift) * 100 + jitterDist(jitterRng);
         std::this_thread::sleep_for(std::chrono::milliseconds(backoffMs));
         attempt++;
       }
